@@ -611,7 +611,15 @@ fn guard_stmt(g: usize) -> Option<Frag> {
         7 => node("VariableDefinition", vec![C(ty("address")), T("w"), T("="), C(call(ty("payable"), vec![msg_sender()])), T(";")]),
         8 => expr_stmt(call(var("require"), vec![eq(call(ty("payable"), vec![msg_sender()]), var("o"), false)])),
         9 => expr_stmt(call(member(var("acl"), "check"), vec![var("k"), msg_sender()])),
-        _ => expr_stmt(call(var("assert"), vec![eq(var("o"), msg_sender(), true)])),
+        10 => expr_stmt(call(var("assert"), vec![eq(var("o"), msg_sender(), true)])),
+        // checks that do NOT mention msg.sender (aliases, look-alikes, other members of msg / tx): the call stays unprotected
+        11 => expr_stmt(call(var("require"), vec![eq(call(var("_msgSender"), vec![]), var("o"), false)])),
+        12 => expr_stmt(call(var("check"), vec![call(var("_msgSender"), vec![])])),
+        13 => expr_stmt(call(var("require"), vec![eq(member(var("tx"), "origin"), var("o"), false)])),
+        14 => expr_stmt(call(var("require"), vec![eq(var("sender"), var("o"), false), strlit("msg.sender")])),
+        15 => expr_stmt(call(var("require"), vec![eq(member(var("msg"), "value"), var("o"), false)])),
+        16 => expr_stmt(call(var("require"), vec![eq(var("msgSender"), member(var("message"), "sender"), true)])),
+        _ => expr_stmt(call(var("require"), vec![eq(member(member(var("x"), "msg"), "senderOf"), var("o"), false)])),
     })
 }
 
@@ -656,6 +664,10 @@ fn muldiv_trees(max_ops: usize) -> Vec<Frag> {
                             let lp = if l.toks.len() > 1 { paren(l.clone()) } else { l.clone() };
                             let rp = if r.toks.len() > 1 { paren(r.clone()) } else { r.clone() };
                             v.push(bin(k, o, p, lc, rc, lp, rp));
+                            // ... and two / three levels of them
+                            let lp2 = if l.toks.len() > 1 { paren(paren(l.clone())) } else { l.clone() };
+                            let rp3 = if r.toks.len() > 1 { paren(paren(paren(r.clone()))) } else { r.clone() };
+                            v.push(bin(k, o, p, lc, rc, lp2, rp3));
                         }
                     }
                 }
@@ -689,7 +701,7 @@ pub fn c07(tier: Tier) -> i32 {
     for kind in ["function", "fallback", "receive", "constructor"] {
         for vis in ["", "public", "external", "internal", "private"] {
             for modifier in ["", "onlyOwner", "only", "m", "OnlyOwner", "lonely"] {
-                for g in 0..=10usize {
+                for g in 0..=17usize {
                     for payout in 0..=5usize {
                         for callee in ["selfdestruct", "suicide"] {
                             if tier == Tier::Quick && callee == "suicide" && (g + payout) % 3 != 0 {
@@ -710,7 +722,7 @@ pub fn c07(tier: Tier) -> i32 {
         }
     }
     // guard after the call, and in another function of the same contract
-    for g in 1..=10usize {
+    for g in 1..=17usize {
         for payout in [0usize, 2] {
             let f = in_c(sd_function("function", "public", "", vec![expr_stmt(sd_call("selfdestruct", payout)), guard_stmt(g).unwrap()]));
             let (t, o) = render_l1(&f.toks);
@@ -866,7 +878,7 @@ pub fn c07(tier: Tier) -> i32 {
     }
     finish(
         run,
-        "states = programs: Σ (erc20 / division / pragma atoms in every hole) + selfdestruct matrix (function kind x visibility x modifier name x 11 guard forms x 6 payout forms x callee; guard after the call / in another function; the call in every statement hole and every expression hole of every statement) + all {*,/,+} trees with <= 3 (4) operators with and without redundant parentheses as right-hand side of =, /=, *= + pragma values x unrelated pragmas x positions; oracle = reference detectors 8.17–8.20 (three-valued); non-trivial = distinct (detector, reported set) outcomes",
+        "states = programs: Σ (erc20 / division / pragma atoms in every hole) + selfdestruct matrix (function kind x visibility x modifier name x 18 guard forms x 6 payout forms x callee; guard after the call / in another function; the call in every statement hole and every expression hole of every statement) + all {*,/,+} trees with <= 3 (4) operators with and without redundant parentheses as right-hand side of =, /=, *= + pragma values x unrelated pragmas x positions; oracle = reference detectors 8.17–8.20 (three-valued); non-trivial = distinct (detector, reported set) outcomes",
         if tier == Tier::Quick { "Σ quick; operator trees <= 3; statement placement depth 1" } else { "Σ thorough; operator trees <= 4; statement placement depth 2" },
         json!([sample_sd]),
     )
